@@ -208,6 +208,9 @@ func c09Program(r *RNG) GoProg {
 	sb.WriteString("func blank(_ int, _ string, c int) int {\n\treturn c\n}\n\nfunc blank2(_, _ int) int {\n\treturn 7\n}\n\nfunc (_ *T) MB(_ int, _ int, c ...int) int {\n\treturn len(c)\n}\n\n")
 	sb.WriteString("var bumps int\n\nfunc bump() int {\n\tbumps++\n\treturn 100 + bumps\n}\n\nfunc (t *T) Bump() (int, int) {\n\tt.A++\n\treturn 7, 8\n}\n\nfunc nores() {\n\tbumps += 10\n}\n\n")
 	sb.WriteString("func loopPost(t *T) (string, int) {\n\tn := 0\n\tfor i := 0; i < 3; bump() {\n\t\ti++\n\t\tn++\n\t}\n\tfor i := 0; i < 2; t.Bump() {\n\t\ti++\n\t}\n\tfor i := 0; i < 2; nores() {\n\t\ti++\n\t}\n\tif bump(); n > 0 {\n\t\tn++\n\t}\n\treturn \"done\", n\n}\n\n")
+	// constants and nil converted to the parameter types at every depth of a recursion with locals (the frame is
+	// entered at every stack height, also the ones at which the value stack has to grow)
+	sb.WriteString("func recf(n int, x float64, s []float64, b byte) float64 {\n\ty := x / 2\n\tt := append(s, 1)\n\tz := t[0] / 2\n\tw := b + 200\n\tif n == 0 {\n\t\treturn y + z + float64(w)\n\t}\n\treturn y + z + float64(w) + recf(n-1, 3, nil, 100)\n}\n\n")
 	sb.WriteString("func rec(n int) int {\n\tif n == 0 {\n\t\treturn 0\n\t}\n\treturn 1 + rec(n-1)\n}\n\n")
 	sb.WriteString("func apply(f func(int) int, v int) int {\n\treturn f(v) + 1\n}\n\nfunc twice(v int) int {\n\treturn v * 2\n}\n\nfunc pair(a int, b int) (int, int) {\n\treturn b, a\n}\n\nfunc pass(a int, b int) (int, int) {\n\treturn pair(a, b)\n}\n\n")
 	nf := 2 + r.Intn(3)
@@ -244,7 +247,15 @@ func c09Program(r *RNG) GoProg {
 			}
 			args = append(args, fmt.Sprintf("p%d", k))
 		}
+		for k := r.Intn(4); k > 0; k-- { // locals of its own above the parameters
+			fmt.Fprintf(&sb, "\tl%d := %d\n\t_ = l%d\n", k, k, k)
+		}
 		fmt.Fprintf(&sb, "\tprintln(\"g%d\"%s)\n", i, prefixComma(args))
+		for k, t := range s.ps { // each parameter used in a way that shows its type
+			if !(s.variadic && k == len(s.ps)-1) {
+				fmt.Fprintf(&sb, "\tif true {\n\t\tx := p%d\n\t\tprintln(\"p\", %s)\n\t}\n", k, sensitive[t])
+			}
+		}
 		if s.variadic { // each packed element, used in a way that shows its type
 			k := len(s.ps) - 1
 			fmt.Fprintf(&sb, "\tfor _, x := range p%d {\n\t\tprintln(\"v\", x, %s)\n\t}\n", k, sensitive[s.ps[k]])
@@ -377,6 +388,7 @@ func c09Program(r *RNG) GoProg {
 	}
 	depth := Pick(r, []int{1, 10, 500, 3000})
 	fmt.Fprintf(&sb, "println(\"rec\", rec(%d))\n", depth)
+	fmt.Fprintf(&sb, "println(\"recf\", recf(%d, 3, nil, 100), recf(2, 5, nil, 60))\n", Pick(r, []int{0, 3, 40, 700}))
 	fmt.Fprintf(&sb, "println(\"sum\", sum(1), sum(1, 2), sum(1, 2, 3, 4))\nxs := []int{5, 6, 7}\nprintln(\"spread\", sum(2, xs...))\n")
 	fmt.Fprintf(&sb, "t := &T{A: %d}\nm := t.M\nt = &T{A: 9}\nprintln(\"bound\", m(3), t.M(3))\n", 1+r.Intn(8))
 	sb.WriteString("s, n := t.M2(4, \"q\")\nprintln(\"m2\", s, n)\n")
